@@ -18,6 +18,7 @@ import (
 	marchive "github.com/LindsayBradford/crem/internal/pkg/model/archive"
 	"github.com/LindsayBradford/crem/internal/pkg/model/models/catchment"
 	"github.com/LindsayBradford/crem/internal/pkg/model/planningunit"
+	"github.com/LindsayBradford/crem/internal/pkg/observer"
 	"github.com/LindsayBradford/crem/internal/pkg/parameters"
 	crand "github.com/LindsayBradford/crem/internal/pkg/rand"
 	"github.com/LindsayBradford/crem/pkg/logging/loggers"
@@ -39,6 +40,192 @@ func (s *unitSource) Int63() int64 {
 func (s *unitSource) Seed(int64) {}
 
 func unitOf(v uint64) float64 { return float64(int64(v)) / float64(int64(1)<<53-1) }
+
+// suppaEvent is one explorer event, copied at notification time.
+type suppaEvent struct {
+	note      string
+	hasRes    bool
+	res       string // ArchiveStorageResult (StorageResult.String())
+	hasDes    bool
+	desirable bool
+	hasBase   bool
+	base      string // New Base Model Encoding
+}
+
+// suppaRecorder records the explorer's own event stream: the archive verdict on the candidate
+// (changeTriedIsDesirable), the forced store (AcceptUndesirableChange), the accept/revert notification and
+// the return-to-base, as the explorer REPORTS them (the accessors only show the state afterwards).
+type suppaRecorder struct{ events []suppaEvent }
+
+func (r *suppaRecorder) ObserveEvent(e observer.Event) {
+	if e.EventType != observer.Explorer {
+		return
+	}
+	ev := suppaEvent{}
+	for _, a := range e.AllAttributes() {
+		switch a.Name {
+		case "Note":
+			ev.note, _ = a.Value.(string)
+		case "ArchiveStorageResult":
+			ev.res, ev.hasRes = a.Value.(string)
+		case "ChangeDesirable":
+			ev.desirable, ev.hasDes = a.Value.(bool)
+		case "New Base Model Encoding":
+			ev.base, ev.hasBase = a.Value.(string)
+		}
+	}
+	r.events = append(r.events, ev)
+}
+
+func resCodeOfText(t string) string {
+	for _, r := range []marchive.StorageResult{marchive.StoredReplacingDominatedEntries, marchive.StoredWithNoDominanceDetected,
+		marchive.RejectedWithStoredEntryDominanceDetected, marchive.RejectedWithDuplicateEntryDetected, marchive.StoredForcingDominatingStateRemoval} {
+		if r.String() == t {
+			return resCode(r)
+		}
+	}
+	return "?" + t
+}
+
+// iterationReport is what the event stream of one TryRandomChange says happened.
+type iterationReport struct {
+	verdict     string // archive verdict on the candidate, "" when not reported
+	verdictDes  bool
+	forcedEvent bool   // "Forcing Model into Archive" reported
+	forcedRes   string // its ArchiveStorageResult
+	decision    string // desirable | undesirable-accepted | undesirable-reverted | ""
+	decisions   int
+	returned    bool
+	base        string
+}
+
+func readIteration(events []suppaEvent) iterationReport {
+	var rep iterationReport
+	for _, e := range events {
+		switch {
+		case e.hasRes && e.hasDes:
+			rep.verdict, rep.verdictDes = resCodeOfText(e.res), e.desirable
+		case e.note == "Forcing Model into Archive":
+			rep.forcedEvent, rep.forcedRes = true, resCodeOfText(e.res)
+		case e.note == "Accepting Desirable Change":
+			rep.decision = "desirable"
+			rep.decisions++
+		case e.note == "Accepting Undesirable Change":
+			rep.decision = "undesirable-accepted"
+			rep.decisions++
+		case e.note == "Reverting Undesirable Change":
+			rep.decision = "undesirable-reverted"
+			rep.decisions++
+		case e.note == "Returning to Base":
+			rep.returned, rep.base = true, e.base
+		}
+	}
+	return rep
+}
+
+// checkIterationReport: the event stream against the state the accessors show (C05: a forced store only ever
+// follows a refusal-as-dominated of the same candidate; C06: what is reported is what happened).
+func checkIterationReport(c *Ctx, rep iterationReport, accessorRes marchive.StorageResult, desirable, moved, returned bool, curEncoding string, iterNo uint64) (verdict string, forced bool) {
+	forced = accessorRes == marchive.StoredForcingDominatingStateRemoval
+	verdict = rep.verdict
+	if verdict == "" {
+		c.Fail("C06:verdict-reported", "suppa:archive-verdict-not-reported", fmt.Sprintf("iteration %d: no ArchiveStorageResult/ChangeDesirable event", iterNo), nil)
+		verdict = resCode(accessorRes)
+	}
+	if !forced && verdict != resCode(accessorRes) {
+		c.Fail("C06:verdict-reported", "suppa:reported-verdict-differs", fmt.Sprintf("iteration %d: event stream says %s, explorer state says %s", iterNo, verdict, resCode(accessorRes)), nil)
+	}
+	if rep.verdictDes != desirable {
+		c.Fail("C06:verdict-reported", "suppa:reported-desirability-differs", fmt.Sprintf("iteration %d: event says desirable=%v, state says %v", iterNo, rep.verdictDes, desirable), nil)
+	}
+	if forced != rep.forcedEvent || (rep.forcedEvent && rep.forcedRes != "F") {
+		c.Fail("C05:forced-store-reported", "suppa:forced-store-report-differs", fmt.Sprintf("iteration %d: forced=%v, event=%v (%s)", iterNo, forced, rep.forcedEvent, rep.forcedRes), nil)
+	}
+	if forced && verdict != "RD" {
+		c.Fail("C05:force-only-after-dominated-refusal", "suppa:forced-without-dominated-refusal", fmt.Sprintf("iteration %d: the archive's verdict on the candidate was %s, yet it was forced", iterNo, verdict), nil)
+	}
+	want := "undesirable-reverted"
+	if desirable {
+		want = "desirable"
+	} else if moved {
+		want = "undesirable-accepted"
+	}
+	if rep.decision != want || rep.decisions != 1 {
+		c.Fail("C06:decision-reported", "suppa:reported-decision-differs", fmt.Sprintf("iteration %d: %d decision events, last %q, want %q", iterNo, rep.decisions, rep.decision, want), nil)
+	}
+	if rep.returned != returned {
+		c.Fail("C06:return-to-base-reported", "suppa:return-to-base-report-differs", fmt.Sprintf("iteration %d: event=%v state=%v", iterNo, rep.returned, returned), nil)
+	}
+	if rep.returned && rep.base != curEncoding {
+		c.Fail("C06:return-to-base-reported", "suppa:return-to-base-encoding-differs", fmt.Sprintf("iteration %d: reported base %s, current model encodes to %s", iterNo, rep.base, curEncoding), nil)
+	}
+	return verdict, forced
+}
+
+// aimedDraw: a 53-bit numerator whose u = v/(2^53-1) sits just outside the 1e-9 band around p
+// (relative offsets 1e-8 .. 1e-3 either side), so that the comparison `p > u` is decided close to its boundary.
+func aimedDraw(r *Rng, p float64) (uint64, bool) {
+	if !(p > 0 && p <= 1) {
+		return 0, false
+	}
+	off := math.Pow10(-(3 + r.Intn(6)))
+	if r.Bool() {
+		off = -off
+	}
+	t := p * (1 + off)
+	if t < 0 || t > 1 {
+		return 0, false
+	}
+	return uint64(math.Round(t * float64(int64(1)<<53-1))), true
+}
+
+// independentProbability recomputes the acceptance probability from the changes (the property's formula).
+func independentProbability(averagedKind bool, diffs []float64, T float64) float64 {
+	if averagedKind {
+		p := 0.0
+		for _, d := range diffs {
+			p += math.Exp(-math.Abs(d) / T)
+		}
+		return p / float64(len(diffs))
+	}
+	p := 1.0
+	for _, d := range diffs {
+		p *= math.Exp(-math.Abs(d) / T)
+	}
+	return p
+}
+
+// checkMetropolis: "moves exactly when the acceptance probability (product / mean of exp(-|change_i|/T)) exceeds the draw".
+// p is recomputed independently from the changes.  Outside the 1e-9 (relative) band around p the rule is evaluated on
+// that p; the probability the coolant holds must be that p (relative 1e-12: same operations in the same order), and
+// then the rule is also evaluated EXACTLY on it (no band).  One signature: all three are the same clause.
+func checkMetropolis(c *Ctx, averagedKind bool, diffs []float64, T, pHeld, u float64, moved bool) {
+	p := independentProbability(averagedKind, diffs, T)
+	if math.Abs(p-u) > 1e-9*math.Max(p, u) && moved != (p > u) {
+		c.Fail("C06:undesirable-iff-probability-exceeds-draw", "suppa:metropolis-rule-wrong", fmt.Sprintf("p=%v u=%v moved=%v diffs=%v T=%v", p, u, moved, diffs, T), nil)
+		return
+	}
+	if !(math.Abs(p-pHeld) <= 1e-12*math.Max(math.Abs(p), math.Abs(pHeld))) && !(math.IsNaN(p) && math.IsNaN(pHeld)) {
+		c.Fail("C06:undesirable-iff-probability-exceeds-draw", "suppa:metropolis-rule-wrong", fmt.Sprintf("the coolant decided with p=%v, the formula gives p=%v (u=%v moved=%v diffs=%v T=%v)", pHeld, p, u, moved, diffs, T), nil)
+		return
+	}
+	if moved != (pHeld > u) {
+		c.Fail("C06:undesirable-iff-probability-exceeds-draw", "suppa:metropolis-rule-wrong", fmt.Sprintf("exactly: p=%v u=%v moved=%v diffs=%v T=%v", pHeld, u, moved, diffs, T), nil)
+	}
+	if p < 0 || p > 1 {
+		c.Fail("C06:probability-in-unit-interval", "suppa:probability-out-of-range", fmt.Sprintf("p=%v diffs=%v T=%v", p, diffs, T), nil)
+	}
+}
+
+func diffsStr(diffs []float64) string {
+	var sb strings.Builder
+	sb.WriteString(strconv.Itoa(len(diffs)))
+	for _, d := range diffs {
+		sb.WriteByte(' ')
+		sb.WriteString(approxFmt(d))
+	}
+	return sb.String()
+}
 
 // sorted variable names -> (our index, precision): DissolvedNitrogen, ImplementationCost, OpportunityCost,
 // ParticulateNitrogen, SedimentProduction, TotalNitrogen
@@ -81,6 +268,7 @@ type suppaRun struct {
 	potSrc  *scriptSource
 	coolSrc *unitSource
 	archSrc *scriptSource
+	rec     *suppaRecorder
 	limVar  int
 	limit   float64
 	// reference return-to-base schedule (the property's own statement, computed independently)
@@ -177,20 +365,26 @@ func oneSuppaRun(c *Ctx, r *Rng, ds string, limVar int, limit float64, kind stri
 		coolant = coolsup.NewCoolant()
 	}
 	// explorer parameters: temperatures such that undesirable candidates are sometimes accepted
-	t0 := []float64{0.001, 0.05, 1, 10, 1000, 1e6}[r.Intn(6)]
+	t0 := []float64{0.001, 0.05, 1, 10, 1000, 1e6, 1e8}[r.Intn(7)]
 	cf := []float64{1, 0.999, 0.95, 0.5}[r.Intn(4)]
 	initialStep := int64(1 + r.Intn(50))
 	if r.Chance(0.2) {
 		initialStep = 1
+	} else if r.Chance(0.1) {
+		initialStep = int64(51 + r.Intn(iters-50)) // a late first return (still inside the run)
 	}
 	minRate := int64(1 + r.Intn(10))
 	rtbFactor := []float64{0, 0.5, 0.9, 0.95, 1}[r.Intn(5)]
+	checkND := r.Bool() // the explorer's own per-iteration self-check (panics when it fails): never fires (C05 inv_passes_selfcheck)
 	exParams := parameters.Map{
 		"StartingTemperature": t0, "CoolingFactor": cf,
 		"InitialReturnToBaseStep": initialStep, "MinimumReturnToBaseRate": minRate, "ReturnToBaseAdjustmentFactor": rtbFactor,
+		"CheckNonDominance": checkND,
 	}
 	ex := suppapitnarm.New().WithCoolant(coolant)
 	ex.SetLogHandler(loggers.NewNullLogger())
+	rec := &suppaRecorder{}
+	ex.AddObserverAsFirst(rec)
 	var initPanic string
 	initPanic = protect(func() {
 		ex.SetModel(m)
@@ -206,7 +400,7 @@ func oneSuppaRun(c *Ctx, r *Rng, ds string, limVar int, limit float64, kind stri
 	}
 	cur := ex.Model().(*catchment.Model)
 	pot := ex.VerifPotentialModel().(*catchment.Model)
-	run := &suppaRun{c: c, ex: ex, cur: cur, pot: pot, limVar: limVar, limit: limit,
+	run := &suppaRun{c: c, ex: ex, cur: cur, pot: pot, rec: rec, limVar: limVar, limit: limit,
 		refCountdown: uint64(float64(initialStep)), refStep: float64(initialStep), refMin: float64(minRate), refFactor: rtbFactor}
 	run.cm = &CM{m: &cur.CoreModel, limVar: limVar, limit: limit}
 	for _, p := range cur.PlanningUnits() {
@@ -237,8 +431,12 @@ func oneSuppaRun(c *Ctx, r *Rng, ds string, limVar int, limit float64, kind stri
 	curBits, potBits := flagsOf(cur), flagsOf(pot)
 	startLine := fmt.Sprintf("start %s %s %s %d %s %d %s %s", kind, floatBits(t0), floatBits(cf), minRate, floatBits(rtbFactor), initialStep,
 		strings.ReplaceAll(bitsStr(curBits), "-", ""), strings.ReplaceAll(bitsStr(potBits), "-", ""))
+	if checkND {
+		startLine += " cnd"
+	}
 	c.Op(startLine, "ok "+run.stateStr())
 	c.Stat(fmt.Sprintf("suppa run kind=%s limit=%s n=%d", kind, limName(limVar), n))
+	c.Stat(fmt.Sprintf("suppa run CheckNonDominance=%v", checkND))
 
 	// C03: after the initial randomisation the limited variable is within its limit
 	if limVar >= 0 && totalsOf(cur)[limVar] > limit {
@@ -295,8 +493,18 @@ func (run *suppaRun) iterate(r *Rng, n int) bool {
 	case 1:
 		uNum = 1<<53 - 1
 	}
+	aim := r.Intn(4) == 0
+	aimed := false
 	run.coolSrc.log = nil
-	run.coolSrc.next = func() uint64 { return uNum }
+	run.coolSrc.next = func() uint64 {
+		// the coolant has computed its probability by the time it draws: aim the draw just outside the 1e-9 band around it
+		if aim {
+			if v, ok := aimedDraw(r, ex.VerifCoolant().AcceptanceProbability()); ok {
+				uNum, aimed = v, true
+			}
+		}
+		return uNum
+	}
 	pick := r.Intn(1 << 16)
 	run.archSrc.log = nil
 	run.archSrc.next = func() int {
@@ -308,9 +516,19 @@ func (run *suppaRun) iterate(r *Rng, n int) bool {
 	}
 	iterNo := ex.VerifCurrentIteration()
 	cdBefore := ex.VerifCountdown()
+	run.rec.events = nil
 	if p := protect(func() { ex.TryRandomChange() }); p != "" {
 		if strings.Contains(p, "Attempt limit reached") {
 			c.Stat("suppa run ended: attempt-limit panic inside Randomize (limit never binds)")
+			return false
+		}
+		if strings.Contains(p, "scripted random source: more than") {
+			// the candidate's Randomize() spins (DESIGN 10.7): its limit-seeking loop has toggled every action it could, none
+			// was invalid, attempts remain, and every further pick is `continue`d.  Needs non-monotone data (generated
+			// adverse datasets: negative costs).  A hang of the optimised model's Randomize(), not a clause of C05/C06/C03:
+			// the run ends here; counted and noted in the evidence.
+			c.Stat("suppa run ended: the candidate's Randomize() spins (adverse data: every remaining toggle valid)")
+			c.Note(fmt.Sprintf("Randomize() spins inside TryRandomChange at iteration %d (limit %s = %v, current set %s): crem would hang here", iterNo, limName(run.limVar), run.limit, bitsStr(flagsOf(run.cur))))
 			return false
 		}
 		c.Op("iter-panicked", "panic")
@@ -320,15 +538,12 @@ func (run *suppaRun) iterate(r *Rng, n int) bool {
 	cand := comp.Compress(run.pot)
 	diffs := cand.VariableDifferences(before)
 	res := ex.VerifArchiveResult()
-	// the archive verdict on the candidate is overwritten by a forced store; recover it
 	moved := ex.VerifChangeAccepted()
 	desirable := ex.VerifChangeIsDesirable()
-	forced := res == marchive.StoredForcingDominatingStateRemoval
-	resCodeStr := resCode(res)
-	if forced {
-		resCodeStr = "RD"
-	}
 	returned := ex.VerifLastReturnedToBase() == iterNo
+	// the archive verdict on the candidate is overwritten by a forced store: it is read off the explorer's own
+	// event stream (and the stream is checked against the state)
+	resCodeStr, forced := checkIterationReport(c, readIteration(run.rec.events), res, desirable, moved, returned, comp.Compress(run.cur).Encoding(), iterNo)
 	// schedule: first after the initial number of iterations, then at intervals max(minimum, step*factor)
 	run.refCountdown--
 	wantReturn := run.refCountdown == 0
@@ -347,17 +562,23 @@ func (run *suppaRun) iterate(r *Rng, n int) bool {
 	if len(run.archSrc.log) > 0 {
 		pickEff = run.archSrc.log[0]
 	}
+	// the model receives the random choices only; the per-objective changes are compared, not given
 	var sb strings.Builder
-	fmt.Fprintf(&sb, "iter %s %d %d", floatBits(unitOf(uNum)), pickEff, len(diffs))
-	for _, d := range diffs {
-		sb.WriteByte(' ')
-		sb.WriteString(floatBits(d))
-	}
+	fmt.Fprintf(&sb, "iter %s %d", floatBits(unitOf(uNum)), pickEff)
 	for _, d := range run.potSrc.log {
 		sb.WriteByte(' ')
 		sb.WriteString(strconv.Itoa(d))
 	}
-	c.Op(sb.String(), fmt.Sprintf("%s %s %s %s %s %s %s", resCodeStr, b2s(desirable), b2s(moved), b2s(forced), b2s(returned), probStr, run.stateStr()))
+	c.Op(sb.String(), fmt.Sprintf("%s %s %s %s %s %s %s %s", resCodeStr, b2s(desirable), b2s(moved), b2s(forced), b2s(returned), probStr, diffsStr(diffs), run.stateStr()))
+	if len(diffs) != 6 {
+		c.Fail("C06:change-per-objective", "suppa:changes-not-per-objective", fmt.Sprintf("%d changes for 6 objectives", len(diffs)), nil)
+	}
+	for k, vi := range sortedVarIdx {
+		// change_i = candidate value - current value, over all objectives (independently of VariableDifferences)
+		if k < len(diffs) && diffs[k] != cand.Variables[k]-before.Variables[k] {
+			c.Fail("C06:change-per-objective", "suppa:change-not-candidate-minus-current", fmt.Sprintf("%s: %v != %v - %v", varNames[vi], diffs[k], cand.Variables[k], before.Variables[k]), nil)
+		}
+	}
 
 	// ---- direct evaluation of C06 / C05 / C03 on the implementation
 	u := unitOf(uNum)
@@ -369,20 +590,10 @@ func (run *suppaRun) iterate(r *Rng, n int) bool {
 		c.Fail("C06:desirable-moves", "suppa:desirable-not-moved", "candidate stored / already held but the explorer did not move to it", nil)
 	}
 	if !desirable {
-		p := 1.0
-		if _, isAvg := ex.VerifCoolant().(*averaged.Coolant); isAvg {
-			p = 0
-			for _, d := range diffs {
-				p += math.Exp(-math.Abs(d) / temperatureBefore(ex))
-			}
-			p /= float64(len(diffs))
-		} else {
-			for _, d := range diffs {
-				p *= math.Exp(-math.Abs(d) / temperatureBefore(ex))
-			}
-		}
-		if math.Abs(p-u) > 1e-9 && moved != (p > u) {
-			c.Fail("C06:undesirable-iff-probability-exceeds-draw", "suppa:metropolis-rule-wrong", fmt.Sprintf("p=%v u=%v moved=%v diffs=%v", p, u, moved, diffs), nil)
+		_, isAvg := ex.VerifCoolant().(*averaged.Coolant)
+		checkMetropolis(c, isAvg, diffs, temperatureBefore(ex), ex.VerifCoolant().AcceptanceProbability(), u, moved)
+		if aimed {
+			c.Stat(fmt.Sprintf("suppa draw aimed near p: moved=%v", moved))
 		}
 		if moved != forced {
 			c.Fail("C06:accepted-undesirable-is-forced", "suppa:accepted-not-forced", fmt.Sprintf("moved=%v forced=%v", moved, forced), nil)
@@ -403,7 +614,46 @@ func (run *suppaRun) iterate(r *Rng, n int) bool {
 			}
 		}
 	}
-	_ = archBefore
+	// "already holds its action set => moves with certainty": evaluated on the set's CONTENTS before the offer
+	held := false
+	for _, a := range archBefore {
+		if bitsStr(stateBits(a)) == bitsStr(stateBits(cand)) {
+			held = true
+		}
+	}
+	if held && (!moved || forced || resCodeStr != "RU") {
+		c.Fail("C06:held-action-set-moves", "suppa:held-action-set-not-certain", fmt.Sprintf("iteration %d: the set held the candidate's action set, verdict %s moved=%v forced=%v", iterNo, resCodeStr, moved, forced), nil)
+	}
+	if held {
+		c.Stat("suppa candidate's action set already held")
+	}
+	// the forced store evicts exactly the members that dominate the candidate and appends it; a refusal leaves the set alone
+	if forced {
+		var want []*marchive.CompressedModelState
+		for _, a := range archBefore {
+			if !refDominates([]float64(a.Variables), []float64(cand.Variables)) {
+				want = append(want, a)
+			}
+		}
+		ok := len(archNow) == len(want)+1
+		for k := 0; ok && k < len(want); k++ {
+			ok = archNow[k] == want[k]
+		}
+		if !ok || bitsStr(stateBits(archNow[len(archNow)-1])) != bitsStr(stateBits(cand)) {
+			c.Fail("C05:force-evicts-exactly-dominators", "suppa:wrong-forced-eviction", fmt.Sprintf("iteration %d: %d members before, %d after, %d survivors expected", iterNo, len(archBefore), len(archNow), len(want)), nil)
+		}
+	} else if resCodeStr == "RD" || resCodeStr == "RU" {
+		same := len(archNow) == len(archBefore)
+		for k := 0; same && k < len(archNow); k++ {
+			same = archNow[k] == archBefore[k]
+		}
+		if !same {
+			c.Fail("C05:refusal-leaves-archive", "suppa:refusal-changed-archive", fmt.Sprintf("iteration %d: verdict %s", iterNo, resCodeStr), nil)
+		}
+	}
+	if len(archNow) == 0 {
+		c.Fail("C06:solution-set-non-empty", "suppa:archive-empty-after-iteration", fmt.Sprintf("iteration %d", iterNo), nil)
+	}
 	// current solution: the candidate if moved, unchanged otherwise (before any return-to-base)
 	curEnc := bitsStr(flagsOf(run.cur))
 	if !returned {
@@ -471,4 +721,37 @@ func (run *suppaRun) finalChecks(ds string) {
 		}
 	}
 	run.c.Stat(fmt.Sprintf("suppa final archive size bucket=%d", bucket(len(run.ex.VerifArchive().Archive()))))
+	checkReportedArchive(run.c, run.ex)
+}
+
+// checkReportedArchive: "when it is finally reported" - the ModelArchive attribute the explorer attaches to the
+// FinishedAnnealing event (what the Saver writes the summary from) holds exactly the live archive's members, in
+// order, and satisfies the invariant itself.  (What the Saver makes of it is C12's saved-runs suite and
+// Properties/Compose.lean.)
+func checkReportedArchive(c *Ctx, ex *suppapitnarm.Explorer) {
+	attrs := ex.EventAttributes(observer.FinishedAnnealing)
+	reported, ok := attrs.Value(suppapitnarm.ModelArchive).(marchive.NonDominanceModelArchive)
+	if !ok {
+		c.Fail("C05:reported-archive", "suppa:reported-archive-missing", fmt.Sprintf("FinishedAnnealing carries %T under ModelArchive", attrs.Value(suppapitnarm.ModelArchive)), nil)
+		return
+	}
+	live, rep := ex.VerifArchive().Archive(), reported.Archive()
+	same := len(live) == len(rep)
+	for k := 0; same && k < len(live); k++ {
+		same = live[k] == rep[k] || (bitsStr(stateBits(live[k])) == bitsStr(stateBits(rep[k])) && equalVec([]float64(live[k].Variables), []float64(rep[k].Variables)))
+	}
+	if !same {
+		c.Fail("C05:reported-archive", "suppa:reported-archive-differs", fmt.Sprintf("live archive has %d members, the reported one %d (or contents differ)", len(live), len(rep)), nil)
+	}
+	for i, a := range rep {
+		for j, b := range rep {
+			if i != j && refDominates([]float64(a.Variables), []float64(b.Variables)) {
+				c.Fail("C05:archive-non-dominated", "suppa:reported-archive-member-dominated", fmt.Sprintf("reported member %d dominates member %d", i, j), nil)
+			}
+			if i < j && a.Actions.IsEquivalentTo(&b.Actions) {
+				c.Fail("C05:archive-no-duplicates", "suppa:reported-archive-duplicate", fmt.Sprintf("reported members %d and %d share an action set", i, j), nil)
+			}
+		}
+	}
+	c.Stat("suppa reported archive (FinishedAnnealing.ModelArchive) compared with the live one")
 }
